@@ -26,7 +26,7 @@ def run(ctx):
               "prior in {identity, covariance, random, SPD array} x weights in {None, list, int array, float array}: M SPD, "
               "objective(M) <= objective(prior), gradient norm < tol when stopped before max_iter, prior returned when all "
               "constraints hold, weights x c leaves the result unchanged.")
-  ctx.trusted = ["Coq 8.16.1 kernel + vm_compute", "model Model/LSML.v tied by the loss/gradient correspondence",
+  ctx.trusted = ["translator tools/translate_lsml.py + tools/pynum.py / Base/NPNum.v (_comparison_loss, _total_loss, _gradient; zip loop as a left fold), text pins (public fit wrappers)", "Coq 8.16.1 kernel + vm_compute", "model Model/LSML.v tied by the loss/gradient correspondence",
                  "oracles: numpy slogdet / inv / scipy eigh", "convexity (stationary => optimal) not mechanised"]
   ok = ctx.build_property(gen_needed=['Src_lsml'])
   terms, recs = [], []
